@@ -3,6 +3,7 @@
 -/
 import EG.Driver.Line
 import EG.Model.ThickLine
+import EG.Model.ThickSkips
 import EG.Model.ThickPolyline
 import EG.Model.ThickTriangle
 import EG.Model.JoinGuards
@@ -110,6 +111,13 @@ def handleThick (stream : String) (t : Toks) : Option String :=
     let (w, _) := t.nat
     match Thick.thickPoints ⟨s, e⟩ w with
     | some ps => some (fmtPtsDigest ps)
+    | none => some "stuck"
+  | "thick.skips" =>
+    let (s, t) := t.pt
+    let (e, t) := t.pt
+    let (w, _) := t.nat
+    match Thick.skipReport ⟨s, e⟩ w with
+    | some (a, b, n) => some s!"{a} {b} {n}"
     | none => some "stuck"
   | "thick.bbox" =>
     let (s, t) := t.pt
